@@ -18,6 +18,7 @@ from __future__ import annotations
 import ast
 
 from .. import clifacts
+from .. import inline
 from ..facts import UNKNOWN, call_name, dotted, norm
 from ..linters import Linters, leaf_exprs
 from ..util import handlers_covering, handler_names
@@ -117,18 +118,18 @@ def check(run, ctx):
                 run.finding(X3, "format_violations", f"arg:{norm(n)}", f"{norm(n)} does not receive the full violation list", fv.loc)
     # JSON
     oj = repo.func(f"{CLI_UTILS}._output_json")
-    _check_single_iteration(run, X3, oj, "violations")
+    _check_single_iteration(run, X3, oj, oj.node.args.args[0].arg)
     tot = None
     for n in ast.walk(oj.node):
         if isinstance(n, ast.Dict):
             for k, v in zip(n.keys, n.values):
                 if isinstance(k, ast.Constant) and k.value == "total":
                     tot = v
-    if tot is not None and ast.unparse(tot) == "len(violations)":
+    if tot is not None and ast.unparse(tot) == f"len({oj.node.args.args[0].arg})":
         run.ok(X3, "_output_json total", "len(violations)")
     else:
         run.finding(X3, "_output_json", "total", f"JSON total is {norm(tot) if tot is not None else None}, not len(violations)", oj.loc)
-    jf = _dict_keys_in(oj.node)
+    jf = {k.value for d in inline.flat_nodes(repo, oj) if isinstance(d, ast.Dict) for k in d.keys if isinstance(k, ast.Constant)}   # the entry dict may be built by a helper
     need = {"rule_id", "file_path", "line", "column", "message"}
     if need <= jf:
         run.ok(X3, "_output_json fields", "rule_id, file_path, line, column, message present")
@@ -136,9 +137,10 @@ def check(run, ctx):
         run.finding(X3, "_output_json", f"fields-missing:{sorted(need - jf)}", f"JSON rendering lacks {sorted(need - jf)}", oj.loc)
     # text
     ot = repo.func(f"{CLI_UTILS}._output_text")
-    _check_single_iteration(run, X3, ot, "violations")
+    _check_single_iteration(run, X3, ot, ot.node.args.args[0].arg)
     pv = repo.func(f"{CLI_UTILS}._print_violation")
-    attrs = {n.attr for n in ast.walk(pv.node) if isinstance(n, ast.Attribute) and isinstance(n.value, ast.Name) and n.value.id == "v"}
+    vpar = pv.node.args.args[0].arg
+    attrs = {n.attr for n in inline.flat_nodes(repo, pv) if isinstance(n, ast.Attribute) and isinstance(n.value, ast.Name) and n.value.id == vpar}
     if {"rule_id", "file_path", "line", "column", "message"} <= attrs:
         run.ok(X3, "_print_violation fields", "all five fields printed")
     else:
@@ -206,12 +208,12 @@ def check(run, ctx):
     X6 = run.rule("X6", "JSON and text sanitise file_path and message; JSON and SARIF are emitted via json.dumps with ensure_ascii left on", floor=4)
     for fn in ("_output_json", "_print_violation"):
         f = repo.func(f"{CLI_UTILS}.{fn}")
-        san = [ast.unparse(n.args[0]) for n in ast.walk(f.node) if isinstance(n, ast.Call) and call_name(n) == "_sanitize_string" and n.args]
+        san = [ast.unparse(n.args[0]) for n in inline.flat_nodes(repo, f) if isinstance(n, ast.Call) and call_name(n) == "_sanitize_string" and n.args]
         ok = any("file_path" in s for s in san) and any("message" in s for s in san)
         (run.ok(X6, fn, "file_path and message sanitised") if ok else run.finding(X6, fn, "sanitise", f"{fn} does not sanitise both file_path and message", f.loc))
     for fn in ("_output_json", "_output_sarif"):
         f = repo.func(f"{CLI_UTILS}.{fn}")
-        d = [n for n in ast.walk(f.node) if isinstance(n, ast.Call) and dotted(n.func) == "json.dumps"]
+        d = [n for n in inline.flat_nodes(repo, f) if isinstance(n, ast.Call) and dotted(n.func) == "json.dumps"]
         bad = [k for n in d for k in n.keywords if k.arg == "ensure_ascii" and not (isinstance(k.value, ast.Constant) and k.value.value is True)]
         (run.ok(X6, f"{fn} json.dumps", "ensure_ascii default") if d and not bad else run.finding(X6, fn, "dumps", f"{fn} does not serialise through json.dumps(ensure_ascii=True)", f.loc))
     run.extra["commands"] = len(cmds)
